@@ -51,13 +51,14 @@ class AsyncWorld:
 
     def __init__(self, server_kwargs=None, behaviour=None, sync_handlers=False,
                  handlers=('connect', 'message', 'disconnect'), app_kwargs=None,
-                 legacy_disconnect=False):
+                 legacy_disconnect=False, shared=None):
         import engineio
-        self.clock = vclock.VClock()
+        self.shared = shared
+        self.clock = shared.clock if shared else vclock.VClock()
         vclock.set_current(self.clock)
         vclock.install()
         vclock.install_secrets()
-        self.loop = vloop.VLoop(self.clock)
+        self.loop = shared.loop if shared else vloop.VLoop(self.clock)
         self.log = base.QuietLogger()
         kw = dict(async_mode='asgi', logger=self.log)
         kw.update(server_kwargs or {})
@@ -69,7 +70,7 @@ class AsyncWorld:
         self.wss = []
         self.calls = []
         self.tasks = {}       # handle -> task
-        self.nstep = 0
+        self._nstep = 0
         self._never = []
         self.sync_handlers = sync_handlers
         self._install_handlers(handlers, sync_handlers, legacy_disconnect)
@@ -155,6 +156,17 @@ class AsyncWorld:
             self.server.on('disconnect', on_disconnect)
 
     # ------------------------------------------------------------- stepping
+    @property
+    def nstep(self):
+        return self.shared.nstep if self.shared else self._nstep
+
+    @nstep.setter
+    def nstep(self, v):
+        if self.shared:
+            self.shared.nstep = v
+        else:
+            self._nstep = v
+
     @property
     def now(self):
         return self.clock.now
@@ -285,6 +297,8 @@ class AsyncWorld:
                 req.t_done = w.clock.now
                 req.step_done = w.nstep
                 req.done = True
+                for cb in getattr(req, 'on_done', []):
+                    cb()
         self._spawn(runner(), req)
         return req
 
@@ -341,6 +355,8 @@ class AsyncWorld:
                     ws.lost.append(data)
                 else:
                     ws.frames.append((w.clock.now, w.nstep, data))
+                    for cb in getattr(ws, 'on_event', []):
+                        cb()
                 return
             sent.append(ev)
             if t == 'websocket.accept':
@@ -354,6 +370,8 @@ class AsyncWorld:
                 ws.t_server_closed = w.clock.now
                 if ws._waiter is not None and not ws._waiter.done():
                     ws._waiter.set_result(None)
+            for cb in getattr(ws, 'on_event', []):
+                cb()
 
         async def runner():
             try:
@@ -372,6 +390,8 @@ class AsyncWorld:
                     ws.server_closed = True
                     ws.t_server_closed = w.clock.now
                 ws.done = True
+                for cb in getattr(ws, 'on_event', []):
+                    cb()
         ws.lost = []
         self._spawn(runner(), ws)
         return ws
@@ -427,6 +447,25 @@ class AsyncWorld:
         self._spawn(runner(), c)
         return c
 
+    def call_seq(self, name, arglist):
+        c = Call(len(self.calls), name + '*%d' % len(arglist), arglist)
+        self.calls.append(c)
+        w = self
+
+        async def runner():
+            try:
+                for a in arglist:
+                    await getattr(w.server, name)(*a)
+            except asyncio.CancelledError:
+                raise
+            except Exception as e:
+                c.exc = {'type': type(e).__name__, 'text': str(e)[:200], 'site': site_of_tb(e.__traceback__)}
+            finally:
+                c.step_done = w.nstep
+                c.done = True
+        self._spawn(runner(), c)
+        return c
+
     # ----------------------------------------------------------- inspection
     def blocked_site(self, handle):
         t = self.tasks.get(handle)
@@ -458,7 +497,8 @@ class AsyncWorld:
         old_hook = sys.unraisablehook
         sys.unraisablehook = lambda *a: None
         try:
-            self.loop.teardown()
+            if not self.shared:
+                self.loop.teardown()
             self.tasks.clear()
             self._never.clear()
             gc.collect()
